@@ -34,14 +34,17 @@ DECLARED let values) and `idx` is an int or an integer let (`intOf idx = some i`
 
 * `let n 8; register r[n]; map d r[6:10]; X d[0]` is accepted (the constructor cannot check a slice of a let-sized register) and
   `ValidChain` fails — `goodRefs_parsed_fails` below evaluates it;
-* `let n 0; register r[n]` is accepted; * a macro body that indexes a parameter (`x[0]`) or indexes by a parameter (`r[i]`) has
-  no `ValidChain` / no integer index.
+* a macro body that indexes a parameter (`x[0]`) or indexes by a parameter (`r[i]`) has no `ValidChain` / no integer index
+  (`goodRefs_parsed_fails_param`).
 
-The decidable condition is `goodRefs c` (`= true` iff the two hypotheses of `C06_fill_in_map` hold: `goodRefs_iff`).
-For a PARSED circuit it says no more than it has to (`parsed_goodRef_iff`: a gate argument of a parsed circuit is a good reference
-iff it is no reference, or its source is a register with `validChain` and its index is no parameter; counts are always good):
-`goodRefs c ↔ refsOK c`, where `refsOK` only looks at qubit ARGUMENTS.  After `fill_in_let` nothing changes for this condition
-(the chains are then literal but may still leave their source), so no pass makes it automatic.
+The decidable condition is `goodRefs c` (`= true` iff the two hypotheses of `C06_fill_in_map` hold: `goodRefs_iff`);
+`goodRefs_parsed_fails` / `goodRefs_parsed_fails_param` evaluate the two counterexamples, `goodRefs_parsed_holds` a parsed
+circuit with a let-sized register, an alias and a macro for which it holds.  For a parsed circuit the typing (`parseProgram_facts`:
+`TypedC`, `ScopedC`) already gives the rest: counts are never references, and in the body a reference has a register source and an
+int / integer-let index — so what `goodRefs` really asks is `validChain` of the sources (the declared sizes and slice bounds) and
+that no macro body indexes a parameter or indexes by a parameter.  (That reduction is NOT proved here.)  `fill_in_let` REJECTS the first
+counterexample (its rebuild re-validates the now literal slice), so after `fill_in_let` the condition may well be automatic for
+the body; that is not proved either (macro bodies that index a parameter stay outside it in any case).
 -/
 set_option linter.unusedSimpArgs false
 set_option linter.unusedVariables false
